@@ -2,7 +2,7 @@ from vrun import H
 LEVEL_TEXT = ('Bounded model checking of the Part 21 reading kernels that own fixed buffers or scan untrusted bytes (read_func.cc, Str.cc): CBMC built-in pointer/bounds/overflow '
   'checks over the IR-translated real code, arbitrary bytes / symbolic lengths within the stated bounds, unwinding assertions for termination.')
 SRCS = ['src/clstepcore/read_func.cc', 'src/clutils/Str.cc', 'src/clstepcore/sdai.cc', 'src/cldai/sdaiEnum.cc', 'src/cldai/sdaiString.cc']
-COMMON = dict(repo_srcs=SRCS, irc_extra_cc=['harness/common/errordesc_stub.cc'], wrapper='harness/C05/wrap_scan.cc',
+COMMON = dict(repo_srcs=SRCS, irc_extra_cc=['harness/common/errordesc_stub.cc'], wrapper='harness/C05/wrap_scan.cc', unwind_is_violation=True,   # termination is part of C05: a loop that runs past the bound is replayed natively (hang = violation, otherwise machinery fault)
     native_srcs=SRCS + ['src/clutils/errordesc.cc'], models=['lib/cmodels/cxx_rt.c', 'lib/cmodels/printf_null.c', 'lib/cmodels/sprintf_null.c'],
     stubs=['vstd stream/string model (std::string saturating at VSTR_CAP with an overflow flag)', 'ErrorDescriptor messages dropped', 'sprintf of diagnostic text: empty string'])
 SCAN = ['ReadTokenSeparator', 'ReadComment(istream)', 'ReadPcd', 'FoundEndSecKywd', 'GetKeyword', 'ReadStdKeyword', 'SkipInstance', 'FindStartOfInstance', 'PushPastImbedAggr', 'PushPastAggr1Dim', 'SkipSimpleRecord', 'CheckRemainingInput', 'ReadComment(string)']
@@ -32,9 +32,9 @@ HARNESSES = [
     out_of_claim='inputs longer than the bound; whole-file reads; the text collected while skipping', **dict(COMMON, stubs=COMMON['stubs'] + ['GetLiteralStr: replaced by GetLiteralStr_contract (proven equivalent in stream effect and emptiness of the result by C10 gls_equiv)'])) for w in (6, 7, 9)   # 8, 10 (PushPastImbedAggr, SkipSimpleRecord: recursive): witness twin not finished in 600 s at 4 bytes even over the contract
 ] + [
   H('skip_instance', 'irc', 'harness/C05/h_skipinst.c', irc_src_flags={'src/clutils/Str.cc': ['-DGetLiteralStr=GetLiteralStr__real']},
-    defs={'quick': {'NB': 5, 'GLS_CONTRACT': 1, 'VSTR_CAP': 8, 'VSTREAM_CAP': 8, 'VOSTREAM_CAP': 8}, 'thorough': {'NB': 7, 'GLS_CONTRACT': 1, 'VSTR_CAP': 10, 'VSTREAM_CAP': 10, 'VOSTREAM_CAP': 8}},
-    unwind={'quick': 12, 'thorough': 14}, cflags=CMT, native_cflags=CMT, object_bits=10, timeout={'quick': 900, 'thorough': 3600},
-    bounds='SkipInstance on every byte string of <= 5 (7) bytes over {; quote backslash S a ( blank #}, ending anywhere; functional oracle (first semicolon outside string literals)',
+    defs={'quick': {'NB': 6, 'GLS_CONTRACT': 1, 'VSTR_CAP': 8, 'VSTREAM_CAP': 8, 'VOSTREAM_CAP': 8}, 'thorough': {'NB': 7, 'GLS_CONTRACT': 1, 'VSTR_CAP': 10, 'VSTREAM_CAP': 10, 'VOSTREAM_CAP': 8}},
+    unwind={'quick': 13, 'thorough': 14}, cflags=CMT, native_cflags=CMT, object_bits=10, timeout={'quick': 1200, 'thorough': 3600},
+    bounds='SkipInstance on every byte string of <= 6 (7) bytes over {; quote backslash S a ( blank #}, ending anywhere; functional oracle (first semicolon outside string literals)',
     samples=[{'bytes': "'a;'"}, {'bytes': "a';"}, {'bytes': "';';"}, {'bytes': "#1=a;"}, {'bytes': "a;b;"}, {'bytes': "'\\\\S\\\\';"}, {'bytes': "''';"}],
     out_of_claim='comments inside a skipped record (SkipInstance does not recognise them), inputs longer than the bound, the text collected while skipping', **dict(COMMON, stubs=COMMON['stubs'] + ['GetLiteralStr: replaced by GetLiteralStr_contract (proven equivalent in stream effect and emptiness of the result by C10 gls_equiv)'])),
 ] + [
